@@ -1,43 +1,24 @@
 use crate::common::*;
+use crate::rooms::*;
 use crate::world::*;
-use discret::verif::database::query_language::parameter::{Parameters, ParametersAdd};
-use std::time::Instant;
 
 pub fn run(_args: &Args) -> i32 {
     let root = scratch_root();
     let _g = ScratchGuard(root.clone());
     let rt = runtime();
     rt.block_on(async {
-        set_clock(T0);
-        let model = "ns { P { name:String, n:Integer default 0 } Q { name:String } }";
-        let t = Instant::now();
-        let a = FPeer::start("a", 1, model, &root).await.unwrap();
-        let b = FPeer::start("b", 2, model, &root).await.unwrap();
-        println!("start 2 peers {:?}", t.elapsed());
-        let mut p = Parameters::default();
-        p.add("a", a.key_b64()).unwrap();
-        p.add("b", b.key_b64()).unwrap();
-        let r = a.db.mutate_raw(r#"mutate { sys.Room{ admin:[{verif_key:$a}] authorisations:[{ name:"g" rights:[{entity:"ns.P" mutate_self:true mutate_all:false}] users:[{verif_key:$b}] }] } }"#, Some(p)).await.unwrap();
-        let room = r.mutate_entities[0].node_to_mutate.id;
-        let t = Instant::now();
-        for i in 0..100 {
-            let mut p = Parameters::default();
-            p.add("r", b64(&room)).unwrap();
-            p.add("n", format!("x{}", i)).unwrap();
-            a.mutate("mutate { ns.P { room_id:$r name:$n } }", Some(p)).await.unwrap();
-        }
-        println!("100 mutations {:?}", t.elapsed());
-        a.barrier().await;
-        let t = Instant::now();
-        let st = pull(&b, &a, room, PullOpts::default()).await;
-        println!("pull {:?} {:?}", t.elapsed(), st);
-        let t = Instant::now();
-        let st = pull(&b, &a, room, PullOpts::default()).await;
-        println!("pull2 {:?} {:?}", t.elapsed(), st);
-        let q = b.query("query { ns.P (order_by(name asc), first 3) { name } }", None).await.unwrap();
-        println!("{}", q);
-        let rows = b.sql("SELECT count(*) FROM _node").await.unwrap();
-        println!("{:?}", rows);
+        set_clock(tick(0));
+        let u = Universe::start(&root).await.unwrap();
+        let mut r1 = u.create_room(0, tick(0), &[(vec![("ns.P", true, false)], vec![1, 2], vec![])]).await.unwrap();
+        println!("spread0 {:?}", u.spread_room(&r1, 0).await);
+        println!("B rooms: {:?}", u.peers[1].sql("SELECT hex(id), _entity, mdate, hex(room_id) FROM _node WHERE _entity like '0.%'").await.unwrap());
+        let acc = u.apply_event(&mut r1, &REvent::AddUser{group:0, key:3, enabled:true}, 0, tick(4)).await.unwrap();
+        println!("acc {}", acc);
+        println!("spread1 {:?}", u.spread_room(&r1, 0).await);
+        let n = u.peers[0].db.get_room_node(r1.id).await.unwrap();
+        println!("A export: {}", n.is_some());
+        let n = u.peers[1].db.get_room_node(r1.id).await.unwrap();
+        println!("B export: {}", n.is_some());
     });
     0
 }
